@@ -267,31 +267,31 @@ Proof. vm_compute. split; reflexivity. Qed.
 
 (* ---- the range start (proxyutil.GetRangeStart) ---- *)
 
-(* a well-formed single-range Content-Range "bytes a-b/t...": the start is a as an
-   int64 (every magnitude up to 2^63 - 1), -1 when it does not fit; [range_start]
-   is the code (t must be a number), [range_start_rfc] also reads "a-b/*" *)
-Theorem C18_range_start_wellformed : forall star (a b t : list ascii) rest,
+(* a well-formed single-range Content-Range "bytes a-b/t..." with t a number or "*"
+   (unknown complete length): the start is a as an int64 (every magnitude up to
+   2^63 - 1), -1 when it does not fit *)
+Theorem C18_range_start_wellformed : forall (a b t : list ascii) rest,
   all_digits a -> a <> [] -> all_digits b -> b <> [] ->
-  (match t with c :: _ => is_digit c = true \/ (star = true /\ c = "*"%char) | [] => False end) ->
-  range_start_gen star 206 false (list_ascii_of_string "bytes " ++ a ++ "-"%char :: b ++ "/"%char :: t ++ rest)
+  (match t with c :: _ => is_digit c = true \/ c = "*"%char | [] => False end) ->
+  range_start 206 false (list_ascii_of_string "bytes " ++ a ++ "-"%char :: b ++ "/"%char :: t ++ rest)
   = match parse_int64 a with Some v => v | None => -1 end.
 Proof. exact range_start_wellformed. Qed.
 Print Assumptions C18_range_start_wellformed.
 
-Theorem C18_range_start_not_partial : forall star status mp cr, status <> 206 -> range_start_gen star status mp cr = 0.
+Theorem C18_range_start_not_partial : forall status mp cr, status <> 206 -> range_start status mp cr = 0.
 Proof. exact range_start_not_partial. Qed.
 Print Assumptions C18_range_start_not_partial.
 
-(* boundary magnitudes; malformed values; the unknown total "*" (known finding C18-K2) *)
+(* boundary magnitudes; the unknown total "*"; malformed values *)
 Example C18_example_range_start :
   map (fun s => range_start 206 false (list_ascii_of_string s))
     ["bytes 0-9/10"; "bytes 2147483647-2147483700/9999999999"; "bytes 2147483648-2147483700/9999999999";
      "bytes 4294967296-4294967300/9999999999"; "bytes 1099511627776-1099511627800/1099511628000";
      "bytes 9223372036854775807-9223372036854775807/9223372036854775807";
      "bytes 9223372036854775808-9223372036854775809/9223372036854775810";
-     "bytes 5-9"; "bytes -9/10"; "5-9/10"; "items 5-9/10"; "xbytes 5-9/10, bytes 7-9/10"; ""; "bytes 100-599/*"]%string
-  = [0; 2147483647; 2147483648; 4294967296; 1099511627776; 9223372036854775807; -1; -1; -1; -1; -1; 5; -1; -1]
-  /\ range_start_rfc 206 false (list_ascii_of_string "bytes 100-599/*") = 100
+     "bytes 5-9"; "bytes -9/10"; "5-9/10"; "items 5-9/10"; "xbytes 5-9/10, bytes 7-9/10"; ""; "bytes 100-599/*";
+     "bytes 3000000000-3000000499/*"; "bytes 5-9/x"]%string
+  = [0; 2147483647; 2147483648; 4294967296; 1099511627776; 9223372036854775807; -1; -1; -1; -1; -1; 5; -1; 100; 3000000000; -1]
   /\ range_start 200 false (list_ascii_of_string "bytes 100-599/700") = 0
   /\ range_start 206 true (list_ascii_of_string "bytes 100-599/700") = -1.
 Proof. vm_compute. repeat split; reflexivity. Qed.
